@@ -219,7 +219,7 @@ class C01(Check):
         parties.append(Describer(rs["desc"], cfg, buckets))
         parties.append(actors.Operator(rs["oper"], {"dirty_p": 0.3}))
         weights = {"importer": 2.0, "editor": 0.7, "reader": 1.0, "adversary": 2.5, "describer": 0.6, "operator": 0.2}
-        nsteps = r.choice([3, 6, 10, 20, 40])
+        nsteps = r.choice([3, 6, 10, 20, 40] + ([80, 160] if tier == "thorough" else []))
         steps += actors.schedule(rs["sched"], parties, weights, nsteps)
         return {"backend": backend, "steps": steps, "lat": lat}
 
